@@ -9,6 +9,7 @@
 #include <cstdio>
 #include <cstdlib>
 #include <cstring>
+#include <deque>
 #include <fstream>
 #include <iterator>
 #include <list>
@@ -281,6 +282,34 @@ void run_case(const std::vector<long>& vals, std::size_t n)
             emplace(s.begin());
         if (!(Form == 1 && Rvalue) && snapshot<U>(s) != before) modified = true;
         collect(s);
+    }
+    else if constexpr (Form == 8)
+    {
+        // a deque spreads its items over several blocks: 600 leading items are kept in front of the values
+        std::deque<U> s(600 + vals.size());
+        {
+            std::size_t i = 0;
+            for (auto it = s.begin() + 600; it != s.end(); ++it) *it = make<U>(vals[i++]);
+        }
+        emplace(s.begin() + 600);
+        if constexpr (std::is_same_v<U, Mv>)
+        {
+            std::size_t i = 0;
+            for (auto it = s.begin() + 600; it != s.end(); ++it) moved[i++] = it->moved;
+            have_moved = true;
+        }
+    }
+    else if constexpr (Form == 9)
+    {
+        // the reverse iterator visits the values in script order
+        std::vector<U> s(vals.size());
+        for (std::size_t i = 0; i < vals.size(); ++i) s[vals.size() - 1 - i] = make<U>(vals[i]);
+        emplace(s.rbegin());
+        if constexpr (std::is_same_v<U, Mv>)
+        {
+            for (std::size_t i = 0; i < vals.size(); ++i) moved[i] = s[vals.size() - 1 - i].moved;
+            have_moved = true;
+        }
     }
     else if constexpr (Form == 2)
     {
